@@ -546,6 +546,17 @@ namespace photon
         }
     };
 
+#ifdef PHOTON_VERIF
+    // verification accessors: the run-queue lock by itself, for a litmus test
+    // of its mutual exclusion (foreground side vs. background side)
+    extern "C" void* photon_verif_asym_new() { return new asymmetric_spinLock; }
+    extern "C" void photon_verif_asym_delete(void* l) { delete (asymmetric_spinLock*)l; }
+    extern "C" void photon_verif_asym_fg_lock(void* l) { ((asymmetric_spinLock*)l)->foreground_lock(); }
+    extern "C" void photon_verif_asym_fg_unlock(void* l) { ((asymmetric_spinLock*)l)->foreground_unlock(); }
+    extern "C" int photon_verif_asym_bg_try_lock(void* l) { return ((asymmetric_spinLock*)l)->background_try_lock(); }
+    extern "C" void photon_verif_asym_bg_unlock(void* l) { ((asymmetric_spinLock*)l)->background_unlock(); }
+#endif
+
     struct vcpu_t0 : public vcpu_base {
 // offset 16B
         SleepQueue sleepq;  // sizeof(sleepq) should be 24: ptr, size and capcity
